@@ -3,6 +3,7 @@ package main
 // Discharging obligations: SMT-LIB script generation and the solver race (z3 4.8.12, z3 5.1.0, cvc5).
 
 import (
+	"crypto/sha1"
 	"bytes"
 	"context"
 	"fmt"
@@ -179,11 +180,21 @@ func (ob *Obligation) Script(getModel bool) string {
 					scan(a)
 				}
 				// a definition must not mention another symbol that is being replaced in the same round
-				for v, d := range m2 {
+				// (in a fixed order, so that the generated scripts are the same on every run)
+				sortedKeys := func() []*Term {
+					ks := make([]*Term, 0, len(m2))
+					for v := range m2 {
+						ks = append(ks, v)
+					}
+					sort.Slice(ks, func(i, j int) bool { return ks[i].id < ks[j].id })
+					return ks
+				}
+				for _, v := range sortedKeys() {
+					d := m2[v]
 					if d.IsConst() {
 						continue
 					}
-					for w := range m2 {
+					for _, w := range sortedKeys() {
 						if w != v && occurs(w, d) {
 							delete(m2, v)
 							break
@@ -226,8 +237,8 @@ func (ob *Obligation) Script(getModel bool) string {
 					break
 				}
 				var eqs []*Term
-				for v, c := range m2 {
-					eqs = append(eqs, x.o.mk("=", BoolSort, "", nil, v, c))
+				for _, v := range sortedKeys() {
+					eqs = append(eqs, x.o.mk("=", BoolSort, "", nil, v, m2[v]))
 				}
 				for i := range as {
 					as[i] = x.o.Subst(as[i], m2)
@@ -639,6 +650,16 @@ func (ob *Obligation) Solve(timeoutS int, keepScript bool) *SolveResult {
 	script := ob.RawScript
 	if script == "" {
 		script = ob.Script(true)
+	}
+	if os.Getenv("GOVC_SCRIPTHASH") != "" {
+		// determinism self-test: print a digest of every script instead of solving
+		h := sha1.Sum([]byte(script))
+		fmt.Fprintf(os.Stderr, "SCRIPT %s %x\n", ob.Name, h[:8])
+		if d := os.Getenv("GOVC_SCRIPTHASH"); strings.HasPrefix(d, "/") {
+			os.MkdirAll(d, 0o755)
+			os.WriteFile(filepath.Join(d, strings.NewReplacer("/", "_", " ", "_").Replace(ob.Name)+".smt2"), []byte(script), 0o644)
+		}
+		return &SolveResult{Status: "unknown", Output: "script hash mode"}
 	}
 	if ob.Cover && timeoutS > 3 {
 		timeoutS = 3
